@@ -304,7 +304,12 @@ func (g *GoChannel) Close() error {
 	g.subscribersWg.Wait()
 
 	g.logger.Info("Pub/Sub closed", nil)
-	g.persistedMessages = nil
+
+	// a Publish that passed its closed check may still be persisting: drop the log under its lock and
+	// leave an empty table behind instead of nil
+	g.persistedMessagesLock.Lock()
+	g.persistedMessages = map[string][]*message.Message{}
+	g.persistedMessagesLock.Unlock()
 
 	return nil
 }
